@@ -104,3 +104,49 @@ def bool_fn_variant_table(body):
     if out[True] & out[False]:
         return None
     return out
+
+
+def fn_variant_classes(body):
+    """for `fn f(&self) -> bool | Option<_>` over an enum: {return class ('true','false','Some','None'): variants}.
+    None if the function does not branch on exactly one enum scrutinee."""
+    from .flow import typestate
+    dt = DiscrTracker(body)
+    keys = set()
+
+    def cls_of(it):
+        if isinstance(it, Stmt) and it.place.local == 0 and it.place.is_local:
+            rv = it.rv
+            if rv.kind == "use" and rv.ops[0].kind == "const" and rv.ops[0].scalar in (0, 1):
+                return "true" if rv.ops[0].scalar else "false"
+            if rv.kind == "agg" and rv.j.get("variant") in ("Some", "None"):
+                return rv.j["variant"]
+            return "?"
+        return None
+
+    def step(it, s):
+        d, ret = s
+        c = cls_of(it)
+        if c is not None:
+            return (d, c)
+        return None
+
+    def edge(term, tgt, label, s):
+        d, ret = s
+        r = dt.edge(term, tgt, label, d)
+        if r is False:
+            return []
+        inf = dt.info(term)
+        if inf:
+            keys.add((inf[0], inf[1]))
+        return [(r, ret)]
+    res = typestate(body, [(frozenset(), None)], step, edge)
+    if len(keys) != 1:
+        return None
+    key, enum = list(keys)[0]
+    out = {}
+    for bb, states in res.exits.items():
+        for d, ret in states:
+            if ret is None or ret == "?":
+                return None
+            out.setdefault(ret, set()).update(dt.possible(d, key, enum))
+    return out
